@@ -103,7 +103,7 @@ func c10Append(r *Report, p *Prog, arch string) {
 		}, func(ret *ssa.Return) bool { return true }, "len(dst)+len(plaintext)+tagSize"},
 		{"sm4.(*sm4GcmAsm).Open", func(env *LinEnv, fn *ssa.Function) *Lin {
 			return linTerm("len(dst)", true).Add(linTerm("len(ciphertext)", true)).Sub(tag(env, fn))
-		}, func(ret *ssa.Return) bool { return isNilConst(ret.Results[1]) }, "len(dst)+len(ciphertext)-tagSize"},
+		}, func(ret *ssa.Return) bool { return isNilConst(retVals(ret)[1]) }, "len(dst)+len(ciphertext)-tagSize"},
 		{"sm3.(*SM3).Sum", func(env *LinEnv, fn *ssa.Function) *Lin {
 			return linTerm("len(in)", true).Add(linConst(32))
 		}, func(ret *ssa.Return) bool { return true }, "len(in)+32"},
@@ -117,12 +117,12 @@ func c10Append(r *Report, p *Prog, arch string) {
 		env.lenSum = func(c2 *ssa.Function, call2 *ssa.Call, en *LinEnv) ([]*Lin, bool) { return retLenSummary(p, c2, 0, call2, en, 0) }
 		for _, b := range fn.Blocks {
 			ret, ok := b.Instrs[len(b.Instrs)-1].(*ssa.Return)
-			if !ok || !sp.accept(ret) {
+			if !ok || b == fn.Recover || !sp.accept(ret) {
 				continue
 			}
 			r.Count("append_contracts_"+arch, 1)
 			want := sp.want(env, fn)
-			ls, ok := env.Len(ret.Results[0])
+			ls, ok := env.Len(retVals(ret)[0])
 			good := ok && len(ls) > 0
 			for _, l := range ls {
 				if !l.Equal(want) {
@@ -146,7 +146,7 @@ func c10EnsureCapacity(r *Report, p *Prog, arch string) {
 	var head ssa.Value
 	for _, b := range fn.Blocks {
 		if ret, ok := b.Instrs[len(b.Instrs)-1].(*ssa.Return); ok {
-			head = ret.Results[0]
+			head = retVals(ret)[0]
 		}
 	}
 	phi, ok := head.(*ssa.Phi)
